@@ -1,0 +1,59 @@
+//go:build verif
+
+// Package verifhook is instrumentation for the external verification harness.
+// It is compiled in only with the build tag "verif"; without the tag every
+// call site is dead code (const On = false) and is removed by the compiler.
+package verifhook
+
+import "sync/atomic"
+
+// On reports whether the hooks are compiled in.
+const On = true
+
+type sinkFn func(kind string, args []int)
+type gateFn func(point string, id uintptr)
+
+var (
+	sink atomic.Pointer[sinkFn]
+	gate atomic.Pointer[gateFn]
+	seq  atomic.Uint64
+)
+
+// Install sets the event sink (nil removes it).
+func Install(f func(kind string, args []int)) {
+	if f == nil {
+		sink.Store(nil)
+		return
+	}
+	g := sinkFn(f)
+	sink.Store(&g)
+}
+
+// InstallGate sets the scheduling gate (nil removes it). A gate may block: the
+// harness uses it to replay a chosen interleaving of goroutines.
+func InstallGate(f func(point string, id uintptr)) {
+	if f == nil {
+		gate.Store(nil)
+		return
+	}
+	g := gateFn(f)
+	gate.Store(&g)
+}
+
+// Emit reports one event (after the state change it describes).
+func Emit(kind string, args ...int) {
+	if f := sink.Load(); f != nil {
+		seq.Add(1)
+		(*f)(kind, args)
+	}
+}
+
+// Gate marks a scheduling point; id identifies the object being touched.
+func Gate(point string, id uintptr) {
+	if f := gate.Load(); f != nil {
+		(*f)(point, id)
+	}
+}
+
+// Seq returns the number of events emitted so far.
+func Seq() uint64 { return seq.Load() }
